@@ -330,9 +330,11 @@ class LoopSpec:
     assigned inside the loop {name: 'int'|...}; extra_havoc: names to havoc in addition to
     the syntactically assigned ones."""
 
-    def __init__(self, inv, k='k', types=None, extra_havoc=(), facts=(), exit=None):
+    def __init__(self, inv, k='k', types=None, extra_havoc=(), facts=(), exit=None, body_post=None, hints=None):
         self.inv = list(inv.items()) if isinstance(inv, dict) else list(inv)
         self.exit = dict(exit or {})
+        self.body_post = dict(body_post or {})   # checked at the end of every iteration (Y0 = output at loop head)
+        self.hints = dict(hints or {})           # proved (own obligation) right after the invariant is assumed, then used
         self.k = k
         self.types = types or {}
         self.extra_havoc = tuple(extra_havoc)
@@ -921,8 +923,21 @@ class Engine:
     def e_BoolOp(self, node, fr):
         is_and = isinstance(node.op, ast.And)
         if self.pure:
-            vals = [self.ztruth(self.eval(v, fr)) for v in node.values]
-            return Sym(z3.And(*vals) if is_and else z3.Or(*vals), BOOL)
+            # python semantics while operands have concrete truth values; formula once symbolic
+            acc = []
+            for i, v in enumerate(node.values):
+                val = self.eval(v, fr)
+                t = self.truth(val)
+                if isinstance(t, bool) and not acc:
+                    if i == len(node.values) - 1:
+                        return val
+                    if is_and and not t:
+                        return val
+                    if (not is_and) and t:
+                        return val
+                    continue
+                acc.append(z3.BoolVal(t) if isinstance(t, bool) else t)
+            return concretize(Sym(z3.And(*acc) if is_and else z3.Or(*acc), BOOL))
         last = None
         for i, v in enumerate(node.values):
             last = self.eval(v, fr)
@@ -1163,7 +1178,10 @@ class Engine:
                     raise PyRaise('TypeError', 'index type', node=node)
                 n = len(base)
                 iz = zterm(idx, INT)
-                if not self.branch(z3.And(iz >= -n, iz < n)):
+                if self.pure:
+                    if n == 0:
+                        raise Unsupported('spec indexes an empty list with a symbolic index')
+                elif not self.branch(z3.And(iz >= -n, iz < n)):
                     raise PyRaise('IndexError', node=node)
                 if n == 0:
                     raise PyRaise('IndexError', node=node)
@@ -1744,9 +1762,16 @@ class Engine:
         raise Unsupported('nested class definition')
 
     # ---- loops
-    def s_While(self, node, fr):
-        ordinal = fr.loop_ordinal
+    def loop_ordinal_of(self, node, fr):
+        ids = getattr(fr, 'loop_ids', None)
+        if ids is not None and id(node) in ids:
+            return ids[id(node)]
+        o = fr.loop_ordinal
         fr.loop_ordinal += 1
+        return o
+
+    def s_While(self, node, fr):
+        ordinal = self.loop_ordinal_of(node, fr)
         spec = fr.loopspecs.get(ordinal) if fr.is_top else None
         if spec is None:
             n = 0
@@ -1780,14 +1805,17 @@ class Engine:
     max_unroll = 64
 
     def s_For(self, node, fr):
-        ordinal = fr.loop_ordinal
-        fr.loop_ordinal += 1
+        ordinal = self.loop_ordinal_of(node, fr)
         spec = fr.loopspecs.get(ordinal) if fr.is_top else None
         it = self.eval(node.iter, fr)
+        if spec is not None:
+            fr.env['IT%d' % ordinal] = it
         if spec is None:
             saved = fr.loop_ordinal
             items = self.iterate_concrete(it)
-            for x in items:
+            for ii, x in enumerate(items):
+                if ii > self.max_unroll * 8:
+                    raise Unsupported('for loop unrolled more than %d times' % (self.max_unroll * 8))
                 fr.loop_ordinal = saved
                 self.assign(node.target, x, fr)
                 try:
@@ -1859,11 +1887,14 @@ class Engine:
         """Check invariant at entry, havoc, assume invariant."""
         kname = spec.k
         fr.env[kname] = 0
+        mods = self.assigned_names(node.body + ([ast.Assign(targets=[node.target], value=ast.Constant(0))] if isinstance(node, ast.For) else []))
+        mods |= set(spec.extra_havoc)
+        for name in sorted(mods):
+            if name in fr.env:
+                fr.env['entry%d!%s' % (ordinal, name)] = fr.env[name]
         for iname, itext in spec.inv:
             g = self.spec_eval(itext, fr)
             self.check('inv.init/loop%d/%s' % (ordinal, iname), g, kind='inv.init')
-        mods = self.assigned_names(node.body + ([ast.Assign(targets=[node.target], value=ast.Constant(0))] if isinstance(node, ast.For) else []))
-        mods |= set(spec.extra_havoc)
         for name in sorted(mods):
             cur = fr.env.get(name, _MISSING)
             t = spec.types.get(name)
@@ -1884,11 +1915,17 @@ class Engine:
             self.assume(self.ztruth(self.spec_eval(itext, fr)))
         for ftext in spec.facts:
             self.assume(self.ztruth(self.spec_eval(ftext, fr)))
+        for hname, htext in spec.hints.items():
+            self.check('hint/loop%d/%s' % (ordinal, hname), self.spec_eval(htext, fr), kind='hint')
+        if fr.yields is not None:
+            fr.env['Y0'] = fr.yields
 
     def loop_step(self, spec, ordinal, fr, node):
         if isinstance(node, ast.While):
             k = fr.env[spec.k]
             fr.env[spec.k] = self.binop(ast.Add(), k, 1)
+        for bname, btext in spec.body_post.items():
+            self.check('body.post/loop%d/%s' % (ordinal, bname), self.spec_eval(btext, fr), kind='body.post')
         for iname, itext in spec.inv:
             g = self.spec_eval(itext, fr)
             self.check('inv.step/loop%d/%s' % (ordinal, iname), g, kind='inv.step')
@@ -2035,6 +2072,12 @@ def _sf_implies(eng, node, fr):
         a = eng.ztruth(eng.eval(node.args[0], fr))
         if a is False or (not isinstance(a, bool) and z3.is_false(z3.simplify(a))):
             return True
+        if not isinstance(a, bool):
+            sv = z3.Solver()
+            sv.set('timeout', 500)
+            sv.add(a)
+            if sv.check() == z3.unsat:
+                return True      # antecedent unsatisfiable on its own (e.g. 0 <= j < len([]))
         b = eng.ztruth(eng.eval(node.args[1], fr))
     finally:
         eng.pure -= 1
@@ -2067,6 +2110,11 @@ def _sf_old(eng, node, fr):
     return eng.lookup('old!' + name, fr)
 
 
+def _sf_entry(eng, node, fr):
+    """entry(x, n): value of local x when loop n was entered."""
+    return eng.lookup('entry%d!%s' % (node.args[1].value, node.args[0].id), fr)
+
+
 def _sf_seqlen(eng, node, fr):
     v = eng.eval(node.args[0], fr)
     if isinstance(v, GenResult):
@@ -2090,4 +2138,4 @@ def _sf_cdiv(eng, node, fr):
 
 
 SPEC_FORMS = {'forall': _sf_forall, 'exists': _sf_exists, 'implies': _sf_implies, 'iff': _sf_iff,
-              'ite': _sf_ite, 'old': _sf_old, 'seqlen': _sf_seqlen, 'fdiv': _sf_fdiv, 'cdiv': _sf_cdiv}
+              'ite': _sf_ite, 'old': _sf_old, 'entry': _sf_entry, 'seqlen': _sf_seqlen, 'fdiv': _sf_fdiv, 'cdiv': _sf_cdiv}
